@@ -7,8 +7,11 @@ A2 = {("H", 0), ("S", 1), ("T", 0), ("H", 1), ("Y", 1), ("SX", 0), ("CZ", 0), ("
 MODS = {"LwRing", "LwMatrix", "LwGates", "LwTomo"}
 
 
-def model(chk, pid, nq, maxg, alphabet, invariants, dump=True, expect_fail=None):
-    name = "nq%d_g%d" % (nq, maxg)
+BELL = {("H", 0), ("Y", 1), ("CNOT", 0), ("SX", 0)}      # directed scope: (|01> +- |10>)/sqrt2 and relatives in three gates
+
+
+def model(chk, pid, nq, maxg, alphabet, invariants, dump=True, expect_fail=None, tag=""):
+    name = "nq%d_g%d%s" % (nq, maxg, tag)
     wd = tlc.workdir("%s_%s" % (pid, name))
     tlc.copy_specs(wd, MODS)
     consts = dict(NQ=nq, MaxGates=maxg, Alphabet=alphabet)
